@@ -81,6 +81,8 @@ pub fn build_local_search_solver(
          start_time: Option<Instant>,
          _: Option<stdtime::Duration>,
          _: Option<u32>| {
+            #[cfg(rssched_verif)]
+            crate::verif::record_step(iteration_counter, current_solution, previous_solution);
             println!(
                 "Iteration {} - Swap: {}",
                 iteration_counter,
